@@ -369,6 +369,13 @@ class ExposureMonitor(Monitor):
     # ---- oracle 2: consequence (with acknowledgement discipline)
     def _audit(self, market, closing=None):
         mtype, div, mk = self._market_info(market.market_id)
+        st = self.run.held_state(market.market_id)
+        if st is not None and any(rs["st"] == "REMOVED" for rs in st["r"].values()):
+            # a runner removal is not among the later histories C01 quantifies over (prices of matched bets are reduced
+            # after acceptance): the consequence clause stops for this market, the decision clause keeps working on the
+            # positions as they are now
+            self.res.probes["c01.consequence_clause_stopped_after_removal"] += 1
+            return
         for strategy in self.run.agents:
             if not self.discipline.get(strategy.name):
                 continue
